@@ -331,8 +331,18 @@ fn check_logging(ctx: &Ctx, kinds: &[Kind], st: &mut Stats) {
     let ops = script(0);
     for kind in kinds {
         let reference = solo(kind, &ops);
-        let traced = crate::common::with_trace_logging(|| solo(kind, &ops));
-        st.calls += 2 * (ops.len() as u64 + 1);
+        // std HashMap entry points iterate in a per-instance random order: what a logger-only side effect does to them
+        // depends on that order, so those kinds are repeated
+        let reps = if kind.name.starts_with("ProbMinHash") { 16 } else { 1 };
+        let mut traced = reference.clone();
+        for _ in 0..reps {
+            traced = crate::common::with_trace_logging(|| solo(kind, &ops));
+            st.calls += ops.len() as u64 + 1;
+            if traced != reference {
+                break;
+            }
+        }
+        st.calls += ops.len() as u64 + 1;
         if traced != reference {
             ctx.violation(
                 &format!("logging:{}", base_name(kind)),
@@ -343,7 +353,13 @@ fn check_logging(ctx: &Ctx, kinds: &[Kind], st: &mut Stats) {
     }
     for which in 0..4usize {
         let a = large_hashmap_digest(which, 0);
-        let b = crate::common::with_trace_logging(|| large_hashmap_digest(which, 0));
+        let mut b = a.clone();
+        for _ in 0..4 {
+            b = crate::common::with_trace_logging(|| large_hashmap_digest(which, 0));
+            if a != b {
+                break;
+            }
+        }
         if a != b {
             ctx.violation(
                 &format!("logging:{}", LARGE_NAMES[which]),
